@@ -111,3 +111,12 @@ Definition Rep (s : state) (l : list nat) : Prop :=
   size (lst s) = Z.of_nat (length l) /\
   (* every handle of the sequence is an allocated node *)
   (forall a, In a l -> (a < length H)%nat).
+
+(* what every ideal observation looks like, spelled out (used to read C06_refinement) *)
+Definition obs_well_formed (ob : obs) : Prop :=
+  o_panic ob = false /\
+  NoDup (o_fwd ob) /\
+  o_bwd ob = rev (o_fwd ob) /\
+  o_len ob = Z.of_nat (length (o_fwd ob)) /\
+  length (o_vals ob) = length (o_fwd ob) /\
+  o_front_prev_nil ob = true /\ o_back_next_nil ob = true /\ o_removed_isolated ob = true.
